@@ -132,7 +132,7 @@ namespace plan
     else if (name == "cut")
       op.a = {static_cast<long>(r.below(2))};
     else if (name == "svclass")
-      op.a = {static_cast<long>(r.below(2)), static_cast<long>(r.below(4)), static_cast<long>(r.chance(1, 3) ? 1 + 2 * r.below(3) : 0)};
+      op.a = {static_cast<long>(r.below(2)), static_cast<long>(r.below(4)), static_cast<long>(r.chance(1, 3) ? 1 + 2 * r.below(3) : 0), static_cast<long>(r.chance(1, 4) ? 1 + 2 * r.below(4) : 0)};
     else if (name == "origin")
       op.a = {static_cast<long>(r.below(5))};
     else if (name == "rr")
